@@ -283,7 +283,26 @@ func verifOptString(pool []string) *string {
 }
 
 // an arbitrary inhabitant of ketoapi.RelationTuple (as JSON can produce it)
+// verifAdversarialNames: names are drawn from small pools of concrete strings
+// that contain the separator characters of the textual rendering (so that
+// different relationships render to the same text) instead of opaque strings.
+var verifAdversarialNames bool
+
 func verifAPITuple(full bool) *ketoapi.RelationTuple {
+	if verifAdversarialNames {
+		ns := []string{"N", "N:a", "X"}
+		obj := []string{"b", "a:b"}
+		t := &ketoapi.RelationTuple{Namespace: ns[verifChoice(len(ns))], Object: obj[verifChoice(len(obj))], Relation: "r"}
+		if verifChoice(2) == 0 {
+			ids := []string{"u", "N:b#r", "N:b"}
+			s := ids[verifChoice(len(ids))]
+			t.SubjectID = &s
+		} else {
+			rel := []string{"r", ""}
+			t.SubjectSet = &ketoapi.SubjectSet{Namespace: "N", Object: "b", Relation: rel[verifChoice(len(rel))]}
+		}
+		return t
+	}
 	t := &ketoapi.RelationTuple{Namespace: verifNSPool[verifChoice(len(verifNSPool))], Object: verifOpaqueString(), Relation: verifRelPool[verifChoice(len(verifRelPool))]}
 	kinds := 2
 	if full {
@@ -559,6 +578,18 @@ func HarnessC08Single() {
 // HarnessC08Batch: batch(B)[i] == single(B[i]) for batches of n entries
 // (valid, unknown namespace, no subject, duplicates), REST and gRPC.
 func HarnessC08Batch() {
+	verifAdversarialNames = false
+	verifC08Batch()
+}
+
+// HarnessC08BatchNames: the same with names that contain ':', '#' and '@', so
+// that different relationships have the same textual rendering.
+func HarnessC08BatchNames() {
+	verifAdversarialNames = true
+	verifC08Batch()
+}
+
+func verifC08Batch() {
 	verifChkTable = nil
 	verifMaxBatch = 2
 	d := verifNewDeps()
